@@ -142,14 +142,37 @@ pub trait LoopUpdater: OpContainer + Factory<Vec<Leg>> + Factory<Vec<f64>> {
         };
 
         if self.get_n() > 0 {
-            let initial_n = initial_n
-                .map(|n| min(n, self.get_n()))
-                .unwrap_or_else(|| rng.gen_range(0..self.get_n()));
-            let nth_p = self.get_nth_p(initial_n);
-            // Get starting leg for pth op.
-            let op = self.get_node_ref(nth_p).unwrap();
-            let n_vars = op.get_op_ref().get_vars().len();
-            let initial_var = rng.gen_range(0..n_vars);
+            let (nth_p, initial_var) = if let Some(initial_n) = initial_n {
+                let nth_p = self.get_nth_p(min(initial_n, self.get_n()));
+                // Get starting leg for pth op.
+                let op = self.get_node_ref(nth_p).unwrap();
+                let n_vars = op.get_op_ref().get_vars().len();
+                (nth_p, rng.gen_range(0..n_vars))
+            } else {
+                // Choose the starting leg uniformly among the legs of all ops: an op on k
+                // variables must start k times as many loops as a single-site op. A loop and its
+                // reverse start on different ops, so choosing the op uniformly first proposes the
+                // two with different probabilities whenever those ops differ in size, which
+                // breaks detailed balance for models mixing one-, two- and more-site terms.
+                let mut total_vars = 0;
+                let mut next = self.get_first_p();
+                while let Some(p) = next {
+                    let node = self.get_node_ref(p).unwrap();
+                    total_vars += node.get_op_ref().get_vars().len();
+                    next = self.get_next_p(node);
+                }
+                let mut choice = rng.gen_range(0..total_vars);
+                let mut p = self.get_first_p().unwrap();
+                loop {
+                    let node = self.get_node_ref(p).unwrap();
+                    let n_vars = node.get_op_ref().get_vars().len();
+                    if choice < n_vars {
+                        break (p, choice);
+                    }
+                    choice -= n_vars;
+                    p = self.get_next_p(node).unwrap();
+                }
+            };
             let initial_direction = if rng.gen() {
                 OpSide::Inputs
             } else {
